@@ -349,7 +349,11 @@ def shape_articles(opts=None, exclude=(), include=(), key='int', aliased=False, 
     if include:
         av['include'] = list(include)
     acols = [col('id', key, pk=True), col('name', 'str'), col('content', 'str'), col('secret', 'str')]
-    if aliased:
+    if aliased == 'clash':
+        # attribute names that are the names of OTHER columns: content = Column('name'), body = Column('content')
+        acols[1]['attr'] = 'content'
+        acols[2]['attr'] = 'body'
+    elif aliased:
         acols[1]['attr'] = 'name_'
     classes = [
         {'name': 'Article', 'table': 'article', 'versioned': av, 'columns': acols, 'rels': []},
